@@ -7,6 +7,7 @@ from .. import paths
 from ..core import FUNC, call_attr, calls_in, const, dotted, is_const, kwarg, norm, slice_parts, text, walk_local
 
 EXPLANATION = [
+    'C17.ertm-sdu-start: EnhancedRetransmissionProcessor.on_pdu assigns the reassembly buffer for START / UNSEGMENTED I-frames and appends only for CONTINUATION / END.',
     'C17.pump-ends: a `while True` read loop of bumble.transport.common that catches Exception and continues has an earlier handler that leaves the loop on IncompleteReadError (end of stream fails immediately and for ever).',
     'C17.one-parser: no method of sdp.DataElementParser creates another DataElementParser: nesting is parsed by the one parser whose depth counter the guard tests.',
     "C17.endpoint-lists: in bumble.avdtp the endpoints' capabilities / configuration lists are only rebound as a whole, never changed in place (slice store, extend, clear, +=): the two may be one list object.",
@@ -1218,7 +1219,34 @@ def pump_ends(ctx):
     R.check(n >= 1, rule, 'bumble.transport.common | read loops', f'{n}', 'no read loop found (anchor)')
 
 
+def ertm_sdu_start(ctx):
+    """A START or UNSEGMENTED I-frame begins a new SDU: the ERTM processor assigns the reassembly buffer there and appends
+    only for CONTINUATION / END, so a segmented SDU that a peer never finishes cannot end up in front of the next
+    well-formed one."""
+    R, p = ctx.r, ctx.p
+    rule = 'C17.ertm-sdu-start'
+    onp = p.find('bumble.l2cap.EnhancedRetransmissionProcessor.on_pdu')
+    if onp is None:
+        R.bad(rule, 'bumble.l2cap.EnhancedRetransmissionProcessor.on_pdu', 'anchor missing')
+        return
+    writes = []
+    for st in walk_local(onp):
+        tgt = st.targets[0] if isinstance(st, ast.Assign) and len(st.targets) == 1 else st.target if isinstance(st, ast.AugAssign) else None
+        if tgt is None or dotted(tgt) != 'self._in_sdu' or slice_parts(st.value) is None or slice_parts(st.value)[0] != 'pdu':
+            continue
+        kinds = {'START', 'UNSEGMENTED', 'CONTINUATION', 'END'}
+        for t, pol in paths.flat_guards(st, stop=onp):
+            tt = norm(t)
+            if 'control_field.sar ==' in tt or '== control_field.sar' in tt:
+                k = tt.rsplit('.', 1)[-1]
+                kinds = (kinds & {k}) if pol else (kinds - {k})
+        writes.append((kinds, isinstance(st, ast.Assign), st))
+    bad = [(sorted(k), st) for k, fresh, st in writes if fresh != (k <= {'START', 'UNSEGMENTED'})]
+    R.check(len(writes) >= 2 and not bad, rule, 'bumble.l2cap.EnhancedRetransmissionProcessor.on_pdu', f'{len(writes)} writes: START / UNSEGMENTED assign, CONTINUATION / END append', f'for {bad[0][0] if bad else "?"} frames the payload is `{norm(bad[0][1])[:50] if bad else ""}`: an I-frame that starts an SDU is appended to an unfinished reassembly - garbage a peer left there is delivered in front of the next well-formed request', p.loc(bad[0][1]) if bad else p.loc(onp))
+
+
 RULES = [
+    ('C17.ertm-sdu-start', ertm_sdu_start),
     ('C17.pump-ends', pump_ends),
     ('C17.one-parser', one_parser),
     ('C17.endpoint-lists', endpoint_lists),
